@@ -105,6 +105,42 @@ type script struct {
 	trace []opRec
 	cap   [2]int
 	bad   bool
+	held  []held
+}
+
+// held = a byte slice exactly as the buffer handed it out (Get / Find / iterator Key()/Value() /
+// ForEach callback), together with a private copy of what it contained at that moment. The buffer
+// is documented as append-only until Reset, so the bytes behind a returned slice must not change
+// behind the caller's back, whatever operations follow.
+type held struct {
+	ref  []byte
+	snap []byte
+	from string
+}
+
+const maxHeld = 48
+
+func (s *script) retain(ref []byte, from string) {
+	if len(ref) == 0 {
+		return
+	}
+	h := held{ref: ref, snap: append([]byte{}, ref...), from: from}
+	if len(s.held) < maxHeld {
+		s.held = append(s.held, h)
+	} else {
+		s.held[s.rng.Intn(maxHeld)] = h
+	}
+	s.r.Count("slices_retained", 1)
+}
+
+func (s *script) checkHeld(after string) {
+	for _, h := range s.held {
+		s.r.Count("retained_slice_checks", 1)
+		if !bytes.Equal(h.ref, h.snap) {
+			s.fail("returned-slice-changed-later", fmt.Sprintf("a slice returned by %s held %x when it was returned and holds %x after a later %s (no Reset in between)", h.from, h.snap, h.ref, after))
+			return
+		}
+	}
 }
 
 func (s *script) log(op string, k, v []byte) {
@@ -181,6 +217,7 @@ func (s *script) put() {
 		vv[i] ^= 0xff
 	}
 	s.mod.set(string(k), append([]byte{}, v...))
+	s.checkHeld(fmt.Sprintf("Put(%x, %d bytes)", k, len(v)))
 	s.r.Count("op_put", 1)
 	if len(v) == 0 {
 		s.r.Count("op_put_empty_value", 1)
@@ -196,6 +233,7 @@ func (s *script) del() {
 		kk[i] ^= 0xff
 	}
 	s.mod.set(string(k), nil)
+	s.checkHeld(fmt.Sprintf("Delete(%x)", k))
 	s.r.Count("op_delete", 1)
 }
 
@@ -203,6 +241,7 @@ func (s *script) get() {
 	k := s.pickKey()
 	s.log("get", k, nil)
 	v, unknown := s.db.Get(k)
+	s.retain(v, fmt.Sprintf("Get(%x)", k))
 	want, written := s.mod.m[string(k)]
 	s.r.Count("op_get", 1)
 	switch {
@@ -228,6 +267,8 @@ func (s *script) find() {
 	k := s.pickKey()
 	s.log("find", k, nil)
 	rk, rv, err := s.db.Find(k)
+	s.retain(rk, fmt.Sprintf("Find(%x) key", k))
+	s.retain(rv, fmt.Sprintf("Find(%x) value", k))
 	s.r.Count("op_find", 1)
 	var want *ent
 	if i := sort.SearchStrings(s.mod.keys, string(k)); i < len(s.mod.keys) {
@@ -247,7 +288,13 @@ func (s *script) find() {
 func (s *script) foreach() {
 	s.log("foreach", nil, nil)
 	var got []ent
-	s.db.ForEach(func(k, v []byte) { got = append(got, ent{string(k), append([]byte{}, v...)}) })
+	s.db.ForEach(func(k, v []byte) {
+		got = append(got, ent{string(k), append([]byte{}, v...)})
+		if s.rng.Intn(8) == 0 {
+			s.retain(k, "ForEach key")
+			s.retain(v, "ForEach value")
+		}
+	})
 	want := s.mod.sorted()
 	s.r.Count("op_foreach", 1)
 	if d := diffEnts(got, want); d != "" {
@@ -312,6 +359,10 @@ func (s *script) scan() {
 	var fwd, bwd []ent
 	for ok := it.First(); ok; ok = it.Next() {
 		fwd = append(fwd, ent{string(it.Key()), append([]byte{}, it.Value()...)})
+		if s.rng.Intn(8) == 0 {
+			s.retain(it.Key(), "iterator Key()")
+			s.retain(it.Value(), "iterator Value()")
+		}
 		if len(fwd) > len(want)+5 {
 			break
 		}
@@ -429,6 +480,10 @@ func (s *script) walk() {
 				s.fail("iter-key-outside-range", fmt.Sprintf("%s(%x) on range %s positioned at key %x which is not a key of the range", name, arg, rs, k))
 				return
 			}
+			if s.rng.Intn(4) == 0 {
+				s.retain(k, "iterator Key()")
+				s.retain(it.Value(), "iterator Value()")
+			}
 			if !bytes.Equal(it.Value(), list[got].v) {
 				s.fail("iter-value-mismatch", fmt.Sprintf("%s: key %x value %x want %x", name, k, it.Value(), list[got].v))
 				return
@@ -465,6 +520,8 @@ func (s *script) walk() {
 
 func (s *script) reset() {
 	s.log("reset", nil, nil)
+	s.checkHeld("sequence of operations before Reset")
+	s.held = nil // Reset is documented to reuse the buffer: slices handed out before it are void
 	s.db.Reset()
 	s.mod.m = map[string][]byte{}
 	s.mod.keys = nil
@@ -552,16 +609,18 @@ func (s *script) run(nops, wPut, wDel int) {
 	if !s.bad {
 		s.foreach()
 		s.scan()
+		s.checkHeld("end of script")
 	}
 }
 
 func TestC09(t *testing.T) {
 	r := kit.Start(t, "C09", "exploration")
 	defer r.Finish()
-	r.Rule("random operation scripts (put incl. empty/nil values, delete, get, find, foreach+len+size, full forward/backward range scans, random cursor walks First/Last/Seek/Next/Prev with direction changes, reset) over keys of length 0..4 from the alphabet {00,01,'a','b',7f,80,fe,ff}; ranges: nil, BytesPrefix(p), [a,b) with nil / empty / inverted bounds; every answer is compared with a map+sort model; one script in 40 is long (3000 ops) to grow tall skip lists; distinct = (trace length, live keys, tombstones, Size, NewMemDB capacities)")
+	r.Rule("random operation scripts (put incl. empty/nil values, delete, get, find, foreach+len+size, full forward/backward range scans, random cursor walks First/Last/Seek/Next/Prev with direction changes, reset) over keys of length 0..4 from the alphabet {00,01,'a','b',7f,80,fe,ff}; ranges: nil, BytesPrefix(p), [a,b) with nil / empty / inverted bounds; every answer is compared with a map+sort model; up to 48 slices handed out by Get/Find/ForEach/iterators are kept uncopied per script and re-compared with their original contents after every Put/Delete, before Reset and at the end; one script in 40 is long (3000 ops) to grow tall skip lists; distinct = (trace length, live keys, tombstones, Size, NewMemDB capacities)")
 	r.Assume("a Put with an empty value leaves the key known (unknown=false) with an empty value, which is all the API can express for 'known absent'; tombstoned keys are part of scans with an empty value (that is how the layers above recognise deletions)")
 	r.Assume("Next/Prev on a cursor that is not positioned on an entry may either stay unpositioned or restart at the first/last entry of the range (goleveldb iterator convention); both are accepted")
 	r.Assume("iterators are not used across mutations of the buffer (its documentation promises no consistent snapshot)")
+	r.Assume("retention: the buffer documents itself as append-only until Reset (NewMemDB / Size comments) and asks callers not to modify returned slices, so slices handed out by Get, Find, ForEach and the iterators' Key()/Value() (all sub-slices of that buffer) must keep their contents until Reset; the generic goleveldb Iterator comment that Key/Value may change on the next move is not relied upon by this implementation and HEAD keeps them stable, so they are included")
 	rng := r.Rand("c09")
 	n := r.N(4000, 120000)
 	for i := 0; i < n; i++ {
@@ -578,8 +637,9 @@ func TestC09(t *testing.T) {
 		return // the run was cut short; the vacuity guards below would only add noise
 	}
 	for _, c := range []string{"op_put", "op_delete", "op_get", "op_find", "op_scan", "op_walk", "op_foreach", "op_reset", "op_put_empty_value",
-		"get_never_written", "get_known_absent", "get_live", "iter_First", "iter_Last", "iter_Seek", "iter_Next", "iter_Prev", "iter_direction_changes", "scan_empty_range"} {
+		"get_never_written", "get_known_absent", "get_live", "iter_First", "iter_Last", "iter_Seek", "iter_Next", "iter_Prev", "iter_direction_changes", "scan_empty_range", "slices_retained"} {
 		r.Require(c, n/20)
 	}
 	r.Require("scan_entries", n)
+	r.Require("retained_slice_checks", 20*n)
 }
